@@ -4,7 +4,7 @@ from __future__ import annotations
 import ast
 
 from ..nf import to_nf, NFUnsupported
-from ..astutil import (call_name, calls_in, const_value, find_func, is_self_attr, names_in, parse_expr, parse_stmt,
+from ..astutil import (inline_single_defs, call_name, calls_in, const_value, find_func, is_self_attr, names_in, parse_expr, parse_stmt,
                        replace_node)
 from ..cfg import CFG
 from ..frontend import AnalysisError, walk_function, walk_stmts
@@ -344,7 +344,7 @@ def _r3(ctx):
     for s in walk_function(f.node):
         if isinstance(s, ast.Assign) and isinstance(s.targets[0], ast.Name) and s.targets[0].id in want and \
                 isinstance(s.value, ast.Call) and call_name(s.value) == "pd.concat":
-            new = s.value.args[0].elts[1]
+            new = inline_single_defs(f.node, s.value.args[0].elts[1])        # -m with m = abs(point.x) bound once
             sign = "+"
             if isinstance(new, ast.UnaryOp) and isinstance(new.op, ast.USub):
                 sign, new = "-", new.operand
@@ -385,9 +385,13 @@ def _r5(ctx):
         return
     u = upd[0]
     g = getattr(u, "_parent", None)
-    ok = isinstance(g, ast.If) and u in g.body and isinstance(g.test, ast.Compare) and isinstance(g.test.ops[0], ast.Gt) and \
-        norm_text(g.test.left) == norm_text(u.value) and "load_max_seen" in names_in(g.test.comparators[0]) and \
-        isinstance(u.value, ast.Call) and call_name(u.value) in ("np.abs", "abs")
+    passed = {k.value.id for s_ in loop.body if isinstance(s_, ast.Assign) and isinstance(s_.value, ast.Call)
+              for k in s_.value.keywords if isinstance(k.value, ast.Name)} | {"load_max_seen"}
+    gtest = inline_single_defs(pa.node, g.test, keep=passed) if isinstance(g, ast.If) else None
+    uval = inline_single_defs(pa.node, u.value, keep=passed)
+    ok = isinstance(g, ast.If) and u in g.body and isinstance(gtest, ast.Compare) and isinstance(gtest.ops[0], ast.Gt) and \
+        norm_text(gtest.left) == norm_text(uval) and "load_max_seen" in names_in(gtest.comparators[0]) and \
+        isinstance(uval, ast.Call) and call_name(uval) in ("np.abs", "abs")
     if ok:
         ctx.holds(pa, u, "guarded maximum: load_max_seen = |x| only if |x| > load_max_seen (+eps) of the same x")
     else:
@@ -408,7 +412,7 @@ def _r5(ctx):
         for k in call0[0].value.keywords:
             if isinstance(k.value, ast.Name):
                 kwmap[k.value.id] = k.arg       # caller's local -> callee's parameter name
-    guard_text = norm_text(_rn(g.test, kwmap)) if isinstance(g, ast.If) else None
+    guard_text = norm_text(_rn(gtest, kwmap)) if isinstance(g, ast.If) else None
     if restructured:
         # the Memory-3 test as the abstract execution of the dispatch classified it (locals substituted)
         preds = dispatch_by_model(ctx, prog, "R-C04-5", "Memory 3 / maximum bookkeeping")
